@@ -3,12 +3,8 @@
 set -u
 patch=$1; prop=$2; tier=${3:-quick}
 cd /repo || exit 9
-if ! git apply --check "$patch" 2>/dev/null; then
-  if ! git apply --3way "$patch" 2>/dev/null; then echo "PATCH-DOES-NOT-APPLY $patch"; git checkout -- . ; exit 8; fi
-else
-  git apply "$patch"
-fi
-git reset -q 2>/dev/null
+if ! git apply --check "$patch" 2>/dev/null; then echo "PATCH-DOES-NOT-APPLY $patch"; exit 8; fi
+git apply "$patch"
 cd /verif && timeout 3600 ./bin/ssa2smt check --property "$prop" --tier "$tier" 2>&1 | grep -E "^(VIOLATION|KNOWN-FINDING|INCONCLUSIVE|property=|violation detail)" | cut -c1-300
 rc=${PIPESTATUS[0]}
 git -C /repo checkout -- . 
